@@ -3,8 +3,18 @@
 //! status "known" in /verif/known_findings.json (ids are passed on the command line by ./check).
 use crate::util::{Case, FindingPred};
 
+pub const TRANS_LAT: f64 = 0.7297276562269663;
+
 pub static SIGNATURES: &[(&str, FindingPred)] = &[
+  ("R5", r5_bsd),
 ];
 
-#[allow(dead_code)]
-fn never(_: &str, _: &Case) -> bool { false }
+/// R5 — best_starting_depth table too large at the thin Collignon cells next to polar-cap seams:
+/// C16: sig = containment claim, |lat| > asin(2/3), centre within 0.15 rad (in longitude) of a meridian k.pi/2,
+/// r / threshold(start depth) in (0.95, 1).
+fn r5_bsd(sig: &str, c: &Case) -> bool {
+  if sig != "cone-of-radius-r-leaves-the-centre-cell-and-its-neighbours-at-best_starting_depth" { return false; }
+  if c.get("ratio").is_none() || c.get("dlon_seam").is_none() { return false; }
+  let (ratio, dl, lat) = (c.gf("ratio"), c.gf("dlon_seam"), c.gf("lat"));
+  lat.abs() > TRANS_LAT && dl <= 0.15 && ratio > 0.95 && ratio < 1.0
+}
